@@ -11,6 +11,7 @@ package main
 import (
 	"bytes"
 	"encoding/asn1"
+	"encoding/binary"
 	"encoding/hex"
 	"fmt"
 	"runtime/debug"
@@ -704,63 +705,80 @@ func challenge(c *vf.Ctx) {
 				spec.Version = [8]byte{6, 1, 0xb1, 0x1d, 0, 0, 0, 15}
 			}
 		}
-		msg := rn.EncodeChallenge(spec)
-		if i%997 == 0 { // harness sanity: the reference reader must agree with the encoder
-			if back, err := rn.ParseChallenge(msg); err != nil || !bytes.Equal(back.TargetName, spec.TargetName) || !bytes.Equal(back.TargetInfo, spec.TargetInfo) || back.Flags != spec.Flags {
-				c.Fatalf("reference encoder/reader disagree on %x: %v", msg, err)
-			}
+		msg0 := rn.EncodeChallenge(spec)
+		// MS-NLMP 2.2.1.2: when a field's length is 0 its offset "MUST be ignored on receipt" — servers write the
+		// running payload offset (as the reference encoder does), 0, or anything else
+		emptyOffs := []int64{-1}
+		if len(spec.TargetName) == 0 || len(spec.TargetInfo) == 0 {
+			emptyOffs = []int64{-1, 0, 0xFFFFFFFF, 12}
 		}
-		c.Case([]byte("chal"), msg)
-		desc := func() string {
-			return fmt.Sprintf("ntlm.ParseChallengeMessage(%s) [reference-encoded: flags %#x, TargetName %x, TargetInfo %x, Version %x, infoFirst=%v gap=%d maxLen=len+%d]", vf.HexS(msg), spec.Flags, spec.TargetName, spec.TargetInfo, spec.Version, k.first, k.gap, k.extra)
-		}
-		var cm *ntlm.ChallengeMessage
-		var err error
-		if !call(t, "ntlm.ParseChallengeMessage", desc, func() { cm, err = ntlm.ParseChallengeMessage(append([]byte{}, msg...)) }) {
-			return
-		}
-		if !t.check("C08/challenge/ParseChallengeMessage/accepts-wellformed", err == nil && cm != nil, func() string { return fmt.Sprintf("%s: %v", desc(), err) }) {
-			return
-		}
-		t.check("C08/challenge/ParseChallengeMessage/signature-and-type", bytes.Equal(cm.Signature[:], rn.Signature) && cm.MessageType == 2, func() string {
-			return fmt.Sprintf("%s: Signature %x MessageType %d", desc(), cm.Signature, cm.MessageType)
-		})
-		t.check("C08/challenge/ParseChallengeMessage/NegotiateFlags", cm.NegotiateFlags == spec.Flags, func() string {
-			return fmt.Sprintf("%s: NegotiateFlags %#x want %#x", desc(), cm.NegotiateFlags, spec.Flags)
-		})
-		t.check("C08/challenge/ParseChallengeMessage/ServerChallenge", cm.ServerChallenge == spec.ServerChallenge, func() string {
-			return fmt.Sprintf("%s: ServerChallenge %x want %x", desc(), cm.ServerChallenge, spec.ServerChallenge)
-		})
-		t.check("C08/challenge/ParseChallengeMessage/TargetName", bytes.Equal(cm.TargetName, spec.TargetName), func() string { return fmt.Sprintf("%s: TargetName %x want %x", desc(), cm.TargetName, spec.TargetName) })
-		t.check("C08/challenge/ParseChallengeMessage/TargetInfo", bytes.Equal(cm.TargetInfo, spec.TargetInfo), func() string { return fmt.Sprintf("%s: TargetInfo %x want %x", desc(), cm.TargetInfo, spec.TargetInfo) })
-		if spec.Flags&rn.FlagVersion != 0 {
-			v := cm.Version
-			got := [8]byte{v.ProductMajorVersion, v.ProductMinorVersion, byte(v.ProductBuild), byte(v.ProductBuild >> 8), v.Reserved[0], v.Reserved[1], v.Reserved[2], v.NTLMRevision}
-			t.check("C08/challenge/ParseChallengeMessage/Version", got == spec.Version, func() string { return fmt.Sprintf("%s: Version %+v want bytes %x", desc(), v, spec.Version) })
-		}
-		// the AV pairs, from the reference bytes and from what the parser returned
-		for _, src := range []struct {
-			name string
-			b    []byte
-		}{{"reference-bytes", spec.TargetInfo}, {"parsed-TargetInfo", cm.TargetInfo}} {
-			var m map[uint16][]byte
-			var perr error
-			d2 := func() string { return fmt.Sprintf("ntlm.ParseTargetInfo(%x)", src.b) }
-			if !call(t, "ntlm.ParseTargetInfo", d2, func() { m, perr = ntlm.ParseTargetInfo(append([]byte{}, src.b...)) }) {
-				continue
-			}
-			ok := perr == nil && len(m) == len(k.pairs)
-			if ok {
-				for _, p := range k.pairs {
-					v, present := m[p.ID]
-					if !present || !bytes.Equal(v, p.Value) {
-						ok = false
-					}
+		for _, eo := range emptyOffs {
+			msg := append([]byte{}, msg0...)
+			if eo >= 0 {
+				if len(spec.TargetName) == 0 {
+					binary.LittleEndian.PutUint32(msg[16:], uint32(eo))
+				}
+				if len(spec.TargetInfo) == 0 && len(msg) >= 48 {
+					binary.LittleEndian.PutUint32(msg[44:], uint32(eo))
 				}
 			}
-			t.check("C08/challenge/ParseTargetInfo("+src.name+")/returns-exactly-the-pairs", ok, func() string {
-				return fmt.Sprintf("%s = %s, %v; the list carries %s (whole message: %s)", d2(), fmtMap(m), perr, fmtPairs(k.pairs), desc())
+			if i%997 == 0 && eo < 0 { // harness sanity: the reference reader must agree with the encoder
+				if back, err := rn.ParseChallenge(msg); err != nil || !bytes.Equal(back.TargetName, spec.TargetName) || !bytes.Equal(back.TargetInfo, spec.TargetInfo) || back.Flags != spec.Flags {
+					c.Fatalf("reference encoder/reader disagree on %x: %v", msg, err)
+				}
+			}
+			c.Case([]byte("chal"), msg)
+			desc := func() string {
+				return fmt.Sprintf("ntlm.ParseChallengeMessage(%s) [reference-encoded: flags %#x, TargetName %x, TargetInfo %x, Version %x, infoFirst=%v gap=%d maxLen=len+%d, offset of empty fields=%d (-1: running payload offset)]", vf.HexS(msg), spec.Flags, spec.TargetName, spec.TargetInfo, spec.Version, k.first, k.gap, k.extra, eo)
+			}
+			var cm *ntlm.ChallengeMessage
+			var err error
+			if !call(t, "ntlm.ParseChallengeMessage", desc, func() { cm, err = ntlm.ParseChallengeMessage(append([]byte{}, msg...)) }) {
+				continue
+			}
+			if !t.check("C08/challenge/ParseChallengeMessage/accepts-wellformed", err == nil && cm != nil, func() string { return fmt.Sprintf("%s: %v", desc(), err) }) {
+				continue
+			}
+			t.check("C08/challenge/ParseChallengeMessage/signature-and-type", bytes.Equal(cm.Signature[:], rn.Signature) && cm.MessageType == 2, func() string {
+				return fmt.Sprintf("%s: Signature %x MessageType %d", desc(), cm.Signature, cm.MessageType)
 			})
+			t.check("C08/challenge/ParseChallengeMessage/NegotiateFlags", cm.NegotiateFlags == spec.Flags, func() string {
+				return fmt.Sprintf("%s: NegotiateFlags %#x want %#x", desc(), cm.NegotiateFlags, spec.Flags)
+			})
+			t.check("C08/challenge/ParseChallengeMessage/ServerChallenge", cm.ServerChallenge == spec.ServerChallenge, func() string {
+				return fmt.Sprintf("%s: ServerChallenge %x want %x", desc(), cm.ServerChallenge, spec.ServerChallenge)
+			})
+			t.check("C08/challenge/ParseChallengeMessage/TargetName", bytes.Equal(cm.TargetName, spec.TargetName), func() string { return fmt.Sprintf("%s: TargetName %x want %x", desc(), cm.TargetName, spec.TargetName) })
+			t.check("C08/challenge/ParseChallengeMessage/TargetInfo", bytes.Equal(cm.TargetInfo, spec.TargetInfo), func() string { return fmt.Sprintf("%s: TargetInfo %x want %x", desc(), cm.TargetInfo, spec.TargetInfo) })
+			if spec.Flags&rn.FlagVersion != 0 {
+				v := cm.Version
+				got := [8]byte{v.ProductMajorVersion, v.ProductMinorVersion, byte(v.ProductBuild), byte(v.ProductBuild >> 8), v.Reserved[0], v.Reserved[1], v.Reserved[2], v.NTLMRevision}
+				t.check("C08/challenge/ParseChallengeMessage/Version", got == spec.Version, func() string { return fmt.Sprintf("%s: Version %+v want bytes %x", desc(), v, spec.Version) })
+			}
+			// the AV pairs, from the reference bytes and from what the parser returned
+			for _, src := range []struct {
+				name string
+				b    []byte
+			}{{"reference-bytes", spec.TargetInfo}, {"parsed-TargetInfo", cm.TargetInfo}} {
+				var m map[uint16][]byte
+				var perr error
+				d2 := func() string { return fmt.Sprintf("ntlm.ParseTargetInfo(%x)", src.b) }
+				if !call(t, "ntlm.ParseTargetInfo", d2, func() { m, perr = ntlm.ParseTargetInfo(append([]byte{}, src.b...)) }) {
+					continue
+				}
+				ok := perr == nil && len(m) == len(k.pairs)
+				if ok {
+					for _, p := range k.pairs {
+						v, present := m[p.ID]
+						if !present || !bytes.Equal(v, p.Value) {
+							ok = false
+						}
+					}
+				}
+				t.check("C08/challenge/ParseTargetInfo("+src.name+")/returns-exactly-the-pairs", ok, func() string {
+					return fmt.Sprintf("%s = %s, %v; the list carries %s (whole message: %s)", d2(), fmtMap(m), perr, fmtPairs(k.pairs), desc())
+				})
+			}
 		}
 	})
 	c.Sample("challenge", map[string]any{"flags": fmt.Sprintf("%#x", flagCombo(0b010101)|rn.FlagReqTarget|rn.FlagTypeServer), "target_name": "5300e900", "av_pairs": "id2=\"éc\", id7=timestamp", "info_first": true, "gap": 3})
